@@ -460,7 +460,7 @@ def run_rust_property(prop, tier, seed):
             extra = extra + ["--scale", scale]
         for sh in range(nprocs):
             argv = argvs[variant] + ["worker", "--prop", prop, "--tier", tier, "--seed", str(seed), "--shard", str(sh), "--nshards", str(nprocs), "--mode", mode, "--flavour", variant] + extra
-            timeout = 7200 if tier == "thorough" else 1500
+            timeout = 10800 if tier == "thorough" else 3600
             jobs.append((argv, variant_env(variant), "%s-%02d" % (variant, sh), timeout, variant, mode, extra))
     # heavy (native) workers first so that the slow single-threaded miri ones overlap with them
     results = []
